@@ -3,7 +3,7 @@ module verifsim
 go 1.26.0
 
 require (
-	github.com/Query-farm/vgi-rpc-go v0.0.0
+	github.com/Query-farm/vgi-rpc-go v0.15.0
 	github.com/apache/arrow-go/v18 v18.6.0
 )
 
@@ -31,3 +31,49 @@ require (
 	golang.org/x/sync v0.23.0 // indirect
 	golang.org/x/sys v0.48.0 // indirect
 )
+
+// C33 (world K): the S3 storage backend is a separate module of the repository.
+replace github.com/Query-farm/vgi-rpc-go/vgirpc/s3 => /repo/vgirpc/s3
+
+// C33, C43: storage backend, OpenTelemetry hook and the OpenTelemetry SDK
+// (in-memory span recorder, manual metric reader).
+require (
+	github.com/Query-farm/vgi-rpc-go/vgirpc/otel v0.16.0
+	github.com/Query-farm/vgi-rpc-go/vgirpc/s3 v0.0.0
+	go.opentelemetry.io/otel v1.44.0
+	go.opentelemetry.io/otel/metric v1.44.0
+	go.opentelemetry.io/otel/sdk v1.44.0
+	go.opentelemetry.io/otel/sdk/metric v1.44.0
+	go.opentelemetry.io/otel/trace v1.44.0
+)
+
+require (
+	github.com/aws/aws-sdk-go-v2 v1.42.1 // indirect
+	github.com/aws/aws-sdk-go-v2/aws/protocol/eventstream v1.7.14 // indirect
+	github.com/aws/aws-sdk-go-v2/config v1.32.30 // indirect
+	github.com/aws/aws-sdk-go-v2/credentials v1.19.29 // indirect
+	github.com/aws/aws-sdk-go-v2/feature/ec2/imds v1.18.30 // indirect
+	github.com/aws/aws-sdk-go-v2/internal/configsources v1.4.30 // indirect
+	github.com/aws/aws-sdk-go-v2/internal/endpoints/v2 v2.7.30 // indirect
+	github.com/aws/aws-sdk-go-v2/internal/v4a v1.4.31 // indirect
+	github.com/aws/aws-sdk-go-v2/service/internal/accept-encoding v1.13.13 // indirect
+	github.com/aws/aws-sdk-go-v2/service/internal/checksum v1.9.23 // indirect
+	github.com/aws/aws-sdk-go-v2/service/internal/presigned-url v1.13.30 // indirect
+	github.com/aws/aws-sdk-go-v2/service/internal/s3shared v1.19.31 // indirect
+	github.com/aws/aws-sdk-go-v2/service/s3 v1.105.2 // indirect
+	github.com/aws/aws-sdk-go-v2/service/signin v1.4.1 // indirect
+	github.com/aws/aws-sdk-go-v2/service/sso v1.32.1 // indirect
+	github.com/aws/aws-sdk-go-v2/service/ssooidc v1.37.1 // indirect
+	github.com/aws/aws-sdk-go-v2/service/sts v1.44.1 // indirect
+	github.com/aws/smithy-go v1.27.4 // indirect
+	github.com/cespare/xxhash/v2 v2.3.0 // indirect
+	github.com/go-logr/logr v1.4.3 // indirect
+	github.com/go-logr/stdr v1.2.2 // indirect
+	go.opentelemetry.io/auto/sdk v1.2.1 // indirect
+	golang.org/x/net v0.57.0 // indirect
+)
+
+// golang.org/x/tools v0.50.0 (weaver) asks for x/net v0.59.0, whose own
+// requirement golang.org/x/crypto v0.57.0 is not in the offline module cache;
+// every package actually built is satisfied by x/net v0.57.0.
+exclude golang.org/x/net v0.59.0
